@@ -48,6 +48,7 @@ func main() {
 	write("AdminGate.lean", genAdminGate())
 	write("ProxyCount.lean", genProxyCount())
 	write("Encode.lean", genEncode())
+	write("ProxyFlush.lean", genProxyFlush())
 	write("Forwarding.lean", genForwarding())
 	write("ProvisionErr.lean", genProvisionErr())
 	write("UsagePoolSync.lean", genUsagePoolSync())
@@ -57,6 +58,7 @@ func main() {
 	write("Resume.lean", genResume())
 	write("HostMatcherWrites.lean", genHostMatcherWrites())
 	write("MapRanges.lean", genMapRanges())
+	write("LogWriterCloses.lean", genLogWriterCloses())
 
 	// typed scan, cached by content hash of the scanned sources
 	h := hashTree(repo)
@@ -513,6 +515,74 @@ func genEncode() string {
 	}
 	sb.WriteString("/-- encode/caddyfile.go `UnmarshalCaddyfile`: the formats used when the directive names none -/\n")
 	sb.WriteString("def encodeCaddyfileDefaultFormats : List String := " + leanStrList(defaults) + "\n")
+	sb.WriteString(footer)
+	return sb.String()
+}
+
+// ---------------------------------------------------------------- reverse_proxy's maxLatencyWriter (C15)
+
+// genProxyFlush reads off modules/caddyhttp/reverseproxy/streaming.go, for the methods Write and
+// delayedFlush of maxLatencyWriter: in source order the calls m.mu.Lock / m.mu.Unlock (deferred or
+// not), m.dst.Write and m.flush; and whether every call INTO the destination writer (m.dst.Write,
+// m.flush) lies after a Lock with no non-deferred Unlock in between — the serialisation contract of
+// the response writer it wraps (encode's writer and its encoders are not safe for concurrent use).
+func genProxyFlush() string {
+	var sb strings.Builder
+	sb.WriteString(header)
+	_, f := parseFile("modules/caddyhttp/reverseproxy/streaming.go")
+	scan := func(name string) ([]string, bool) {
+		fd := findFunc(f, "maxLatencyWriter", name)
+		if fd == nil {
+			return nil, false
+		}
+		deferred := map[*ast.CallExpr]bool{}
+		ast.Inspect(fd, func(n ast.Node) bool {
+			if d, ok := n.(*ast.DeferStmt); ok {
+				deferred[d.Call] = true
+			}
+			return true
+		})
+		var calls []string
+		locked, into, allUnder := false, 0, true
+		ast.Inspect(fd, func(n ast.Node) bool {
+			ce, ok := n.(*ast.CallExpr)
+			if !ok {
+				return true
+			}
+			switch exprText(ce.Fun) {
+			case "m.mu.Lock":
+				locked = true
+				calls = append(calls, "Lock")
+			case "m.mu.Unlock":
+				if deferred[ce] {
+					calls = append(calls, "defer Unlock")
+				} else {
+					locked = false
+					calls = append(calls, "Unlock")
+				}
+			case "m.dst.Write":
+				calls = append(calls, "dst.Write")
+				into++
+				allUnder = allUnder && locked
+			case "m.flush":
+				calls = append(calls, "flush")
+				into++
+				allUnder = allUnder && locked
+			}
+			return true
+		})
+		return calls, into > 0 && allUnder
+	}
+	wc, wok := scan("Write")
+	fc, fok := scan("delayedFlush")
+	sb.WriteString("/-- streaming.go `(*maxLatencyWriter).Write`: lock operations and calls into the destination writer, in source order -/\n")
+	sb.WriteString("def proxyMlwWriteCalls : List String := " + leanStrList(wc) + "\n\n")
+	sb.WriteString("/-- every `m.dst.Write` / `m.flush` of `Write` lies between `Lock` and (a deferred or later) `Unlock` -/\n")
+	sb.WriteString("def proxyMlwWriteUnderLock : Bool := " + strconv.FormatBool(wok) + "\n\n")
+	sb.WriteString("/-- streaming.go `(*maxLatencyWriter).delayedFlush`: the same for the timer goroutine -/\n")
+	sb.WriteString("def proxyDelayedFlushCalls : List String := " + leanStrList(fc) + "\n\n")
+	sb.WriteString("/-- the `m.flush` of `delayedFlush` lies between `Lock` and (a deferred or later) `Unlock` -/\n")
+	sb.WriteString("def proxyDelayedFlushUnderLock : Bool := " + strconv.FormatBool(fok) + "\n")
 	sb.WriteString(footer)
 	return sb.String()
 }
@@ -2198,6 +2268,59 @@ func genGlue() string {
 		sb.WriteString("\n/-- every call of a Replacer's ReplaceAll / ReplaceKnown / ReplaceOrErr / ReplaceFunc in the consumers C18 models\n    (map.go, headers.go, rewrite.go, vars.go, staticresp.go), in source order: (file, function, method, first argument) -/\n")
 		sb.WriteString("def replacerCallSites : List (String × String × String × String) := [\n  " + strings.Join(rows, ",\n  ") + "\n]\n")
 	}
+
+	// C18: automatic HTTPS phase 1 looks at the host matchers (it expands their patterns to learn the names)
+	// but must not store into them — the matcher expands its patterns again for every request
+	{
+		var stores []string
+		_, f := parseFile("modules/caddyhttp/autohttps.go")
+		if f != nil {
+			var rootIdent func(e ast.Expr) string
+			rootIdent = func(e ast.Expr) string {
+				switch t := e.(type) {
+				case *ast.Ident:
+					return t.Name
+				case *ast.ParenExpr:
+					return rootIdent(t.X)
+				case *ast.StarExpr:
+					return rootIdent(t.X)
+				case *ast.IndexExpr:
+					return rootIdent(t.X)
+				case *ast.SliceExpr:
+					return rootIdent(t.X)
+				case *ast.SelectorExpr:
+					return rootIdent(t.X)
+				}
+				return ""
+			}
+			for _, d := range f.Decls {
+				fd, ok := d.(*ast.FuncDecl)
+				if !ok || fd.Body == nil || fd.Name.Name != "automaticHTTPSPhase1" {
+					continue
+				}
+				ast.Inspect(fd.Body, func(x ast.Node) bool {
+					switch st := x.(type) {
+					case *ast.AssignStmt:
+						if st.Tok == token.DEFINE {
+							return true
+						}
+						for _, l := range st.Lhs {
+							if rootIdent(l) == "hm" {
+								stores = append(stores, exprText(l))
+							}
+						}
+					case *ast.IncDecStmt:
+						if rootIdent(st.X) == "hm" {
+							stores = append(stores, exprText(st.X))
+						}
+					}
+					return true
+				})
+			}
+		}
+		sb.WriteString("\n/-- modules/caddyhttp/autohttps.go automaticHTTPSPhase1: the left-hand sides of the assignments that store\n    through the host matcher `hm` it walks (`hm, ok := m.(*MatchHost)` itself is a definition, not a store) -/\n")
+		sb.WriteString("def autoHTTPSHostMatcherStores : List String := " + leanStrList(stores) + "\n")
+	}
 	sb.WriteString(footer)
 	return sb.String()
 }
@@ -2811,6 +2934,41 @@ func genMapRanges() string {
 	sb.WriteString(header)
 	sb.WriteString("/-- every `range` over a (syntactically recognisable) map in caddyconfig/httpcaddyfile/*.go and modules/**/caddyfile.go:\n    (file:function, ranged expression, `noappend` | `appendkey` (the body appends the range key itself to a slice) |\n    `appendother` (it appends something else), the first sort call on that slice later in the enclosing block, or `NOSORT`) -/\n")
 	sb.WriteString("def caddyfileMapRanges : List (String × String × String × String) := [\n  " + strings.Join(rows, ",\n  ") + "]\n")
+	sb.WriteString(footer)
+	return sb.String()
+}
+
+// genLogWriterCloses: logging.go hands every log its writer out of the `writers` usage pool; the value in the
+// pool is writerDestructor{w}, whose Destruct is w.Close(). The fact: every call of a method named Close or
+// Destruct in logging.go, as (enclosing function, method) — the only place allowed to close a pooled writer is
+// the destructor the pool calls at the last release.
+func genLogWriterCloses() string {
+	_, f := parseFile("logging.go")
+	var sb strings.Builder
+	sb.WriteString(header)
+	sb.WriteString("/-- logging.go: every call `x.Close()` / `x.Destruct()` as (enclosing function, method called), in source order -/\n")
+	sb.WriteString("def logWriterCloseSites : List (String × String) := [")
+	var rows []string
+	if f != nil {
+		for _, d := range f.Decls {
+			fd, ok := d.(*ast.FuncDecl)
+			if !ok || fd.Body == nil {
+				continue
+			}
+			ast.Inspect(fd.Body, func(n ast.Node) bool {
+				ce, ok := n.(*ast.CallExpr)
+				if !ok {
+					return true
+				}
+				if se, ok := ce.Fun.(*ast.SelectorExpr); ok && (se.Sel.Name == "Close" || se.Sel.Name == "Destruct") && len(ce.Args) == 0 {
+					rows = append(rows, fmt.Sprintf("(%q, %q)", fd.Name.Name, se.Sel.Name))
+				}
+				return true
+			})
+		}
+	}
+	sb.WriteString(strings.Join(rows, ", "))
+	sb.WriteString("]\n")
 	sb.WriteString(footer)
 	return sb.String()
 }
